@@ -65,8 +65,8 @@ theorem processSignaling_noErr (c : Conn) (m : Msg) (htok : m.token.length ≤ 8
     | release => simp [noErr]
     | abort => simp [noErr]
 
-theorem dispatchIncoming_noErr (m : Msg) : noErr (dispatchIncoming m) := by
-  unfold dispatchIncoming
+theorem deliver_noErr (m : Msg) : noErr (deliver m) := by
+  unfold deliver dispatchIncoming
   split
   · simp [noErr]
   · split <;> simp [noErr]
@@ -86,7 +86,7 @@ theorem decodeMessage_token_le {data : Bytes} {m : Msg} (h : decodeMessage data 
       | none => simp [hc] at h
       | some code =>
         simp only [hc] at h
-        cases ho : decodeOpts (data.drop (to + tkl)) with
+        cases ho : decodeOpts (decide (code ≥ 224)) (data.drop (to + tkl)) with
         | none => simp [ho] at h
         | some p =>
           obtain ⟨opts, pl⟩ := p
@@ -153,7 +153,7 @@ theorem step_noErr (c : Conn) (hwf : c.spool.wf) (hmax : c.maxSize < 2 ^ 64) :
     refine ⟨fun c' o h => ?_, (fun _ _ h => by cases h)⟩
     simp only [Step.next.injEq] at h
     rw [← h.1, ← h.2]
-    exact ⟨dispatchIncoming_noErr m, Bytes.wf_drop _ hwf⟩
+    exact ⟨deliver_noErr m, Bytes.wf_drop _ hwf⟩
 
 theorem drain_noErr : ∀ (n : Nat) (c : Conn), c.spool.length < n → c.spool.wf →
     c.maxSize < 2 ^ 64 → noErr (drain c).2.1 ∧ (drain c).1.spool.wf := by
